@@ -53,4 +53,16 @@ def _c05():
             "replay_fn": nk.replay_fn, "replay_file_fn": nk.replay_file}
 
 
-PROPS = {"C20": _c20, "C01": _c01, "C05": _c05}
+def _c07():
+    import number as nk
+    import gate as gk
+    return {"builders": [gk.build, nk.build], "level": "proof", "explanation": "const gate: Data ctor invariant, verify_type*, cast helpers, go/unary frame",
+            "replay_fn": nk.replay_fn, "replay_file_fn": nk.replay_file}
+
+
+def _c06():
+    import gate as gk
+    return {"builders": [gk.build], "level": "other", "explanation": "type gate"}
+
+
+PROPS = {"C07": _c07, "C06": _c06, "C20": _c20, "C01": _c01, "C05": _c05}
